@@ -331,6 +331,25 @@ pub fn buffer_set_reverse(b: &mut HashMap<u32, HashMap<u32, CharOpts>>, rev: boo
     }
 }
 
+/// `for (y, line) in B.iter_mut() { D.insert(*y); for x in line.iter_mut() { x.1.reverse = R; } }`: the same, and exactly the
+/// STORED rows are added to the dirty set
+#[verifier::external_body]
+pub fn buffer_set_reverse_mark(b: &mut HashMap<u32, HashMap<u32, CharOpts>>, d: &mut HashSet<u32>, rev: bool)
+    ensures
+        forall|y: u32| #![trigger final(b)@.contains_key(y)] final(b)@.contains_key(y) == old(b)@.contains_key(y),
+        forall|y: u32, x: u32| #![trigger final(b)@[y]@.contains_key(x)] old(b)@.contains_key(y) ==> (final(b)@[y]@.contains_key(x) == old(b)@[y]@.contains_key(x)),
+        forall|y: u32, x: u32| #![trigger final(b)@[y]@[x]] old(b)@.contains_key(y) && old(b)@[y]@.contains_key(x) ==>
+            cv(final(b)@[y]@[x]) == (Cell { reverse: rev, ..cv(old(b)@[y]@[x]) }),
+        forall|y: u32| #![trigger final(d)@.contains(y)] final(d)@.contains(y) == (old(d)@.contains(y) || old(b)@.contains_key(y)),
+{
+    for (y, line) in b.iter_mut() {
+        d.insert(*y);
+        for x in line.iter_mut() {
+            x.1.reverse = rev;
+        }
+    }
+}
+
 /// `for line in B.values_mut() { for x in LO..HI { line.remove(&x); } }`
 #[verifier::external_body]
 pub fn buffer_remove_columns(b: &mut HashMap<u32, HashMap<u32, CharOpts>>, lo: u32, hi: u32)
